@@ -83,6 +83,71 @@ Example C06_ex_layouts :
   (match blob_pack ex_blob false with Ok bs => len bs | Raise _ => -1 end) = 70350.
 Proof. split; vm_compute; reflexivity. Qed.
 
+(* ---- what the library itself emits (AES256-wrap without parameters, AES256-GCM with the DER GCM parameters), BOTH layouts:
+   in-envelope (env = true) and trailing ciphertext (env = false, the LAPS shape). The ContentInfo part is read back by the strict
+   DER reader as exactly the emitted template. Caller-supplied opaque parameters: see PARTIAL of the check module. ---- *)
+From V Require Import gen.K_e2e Model.Crypto Model.Sym Model.Kek Model.CryptoWrap Model.Client Proofs.BlobGcm.
+Theorem C06_emitted_strict_parse : forall kid sid iv cek content env, wf_emit kid sid iv cek content = true ->
+  exists b kb sc ci, encrypt_blob_fields kid sid iv cek content = Ok b /\ wf_blob b = true /\
+    KeyIdentifier_pack kid = Ok kb /\ utf8_encode sid = Ok sc /\
+    blob_pack b env = Ok (ci ++ trailing b env) /\
+    encode (emitted_tree kb sc cek iv (if env then content else [])) = Ok ci /\
+    strict_parse ci = Some [emitted_tree kb sc cek iv (if env then content else [])].
+Proof. exact emitted_strict_parse. Qed.
+Print Assumptions C06_emitted_strict_parse.
+
+(* the nonce: for every output of _encrypt_blob whose second draw has the length os.urandom is asked for (k_gcm_nonce_len, the
+   regenerated kernel; the draw itself is the stated assumption about os.urandom) the GCM parameters are exactly
+   30 11 04 0C <draw> 02 01 10 = SEQUENCE { OCTET STRING draw (12 octets), INTEGER 16 }, and -- the outputs of the crypto
+   primitives being bytes objects below 4 GiB (wf_emit) -- the strict DER reader shows that 12-octet OCTET STRING *)
+Theorem C06_emitted_nonce : forall c r1 r2 r3 data key sid bs,
+  encrypt_blob c r1 r2 r3 data key sid = Ok bs -> len r2 = k_gcm_nonce_len ->
+  exists kid enc_cek enc_content b,
+    encrypt_blob_fields kid sid r2 enc_cek enc_content = Ok b /\ blob_pack b true = Ok bs /\
+    b_enc_cek_algorithm b = oid_aes256_wrap /\ b_enc_cek_parameters b = None /\ b_enc_content_algorithm b = oid_aes256_gcm /\
+    b_enc_content_parameters b = Some ([48; 17; 4; 12] ++ r2 ++ [2; 1; 16]) /\
+    encode (gcm_params_tree r2) = Ok ([48; 17; 4; 12] ++ r2 ++ [2; 1; 16]) /\ len r2 = 12 /\
+    (wf_emit kid sid r2 enc_cek enc_content = true ->
+     exists kb sc, KeyIdentifier_pack kid = Ok kb /\ utf8_encode sid = Ok sc /\
+                   strict_parse bs = Some [emitted_tree kb sc enc_cek r2 enc_content]).
+Proof. exact emitted_nonce. Qed.
+Print Assumptions C06_emitted_nonce.
+
+(* no other nonce length is emitted: in the current source (regenerated kernels) cek_generate draws AESGCM.generate_key(256) then
+   os.urandom(12) and returns both unmodified; in _encrypt_blob (cek, cek_iv) = cek_generate(..) and cek_iv goes (only) into
+   parameters.write_octet_string, followed by write_integer(16) *)
+Theorem C06_nonce_source : k_cek_generate_draws = (256, k_gcm_nonce_len) /\ k_encrypt_blob_flow = true /\
+  k_gcm_nonce_len = 12 /\ k_gcm_icv_len = 16.
+Proof. exact nonce_source. Qed.
+Print Assumptions C06_nonce_source.
+
+(* the hypotheses are satisfiable: an _encrypt_blob run under the symbolic crypto (symmetric-key envelope), 12-octet draw *)
+Definition ex_emit_env : envelope :=
+  {| gke_version := 1; gke_flags := 0; gke_l0 := 361; gke_l1 := 31; gke_l2 := 23; gke_rkid := repeat 5 16;
+     gke_kdf_alg := STR_KDF_ALG;
+     gke_kdf_params := [0; 0; 0; 0; 1; 0; 0; 0; 14; 0; 0; 0; 0; 0; 0; 0; 83; 0; 72; 0; 65; 0; 53; 0; 49; 0; 50; 0; 0; 0];
+     gke_secret_alg := [68; 72]; gke_secret_params := []; gke_priv_len := 512; gke_pub_len := 2048;
+     gke_domain := [100]; gke_forest := [102; 46; 103]; gke_l1_key := []; gke_l2_key := repeat 9 64 |}.
+Definition ex_emit_sid : pystr := [83; 45; 49; 45; 53; 45; 50; 49; 45; 49; 45; 50; 45; 51; 45; 53; 48; 48].
+Definition ex_emit_parts : option (key_identifier * bytes * bytes) :=
+  match gcm_parameters (repeat 2 12), new_kek_rnd sym ex_emit_env (repeat 3 32) with
+  | Ok p, Ok (kek, kid) =>
+    match content_encrypt sym oid_aes256_gcm (Some p) (repeat 1 32) [1; 2; 3], cek_encrypt sym oid_aes256_wrap None kek (repeat 1 32) with
+    | Ok ect, Ok ec => Some (kid, ec, ect)
+    | _, _ => None
+    end
+  | _, _ => None
+  end.
+Example C06_emitted_nonce_example :
+  len (repeat 2 12) = k_gcm_nonce_len /\
+  (match encrypt_blob sym (repeat 1 32) (repeat 2 12) (repeat 3 32) [1; 2; 3] ex_emit_env ex_emit_sid with
+   | Ok bs => len bs | Raise _ => -1 end) = 509 /\
+  match ex_emit_parts with
+  | Some (kid, ec, ect) => wf_emit kid ex_emit_sid (repeat 2 12) ec ect = true
+  | None => False
+  end.
+Proof. split; [|split]; vm_compute; reflexivity. Qed.
+
 (* ---- flows: the regenerated syntax of the CMS layer (gen/F_asn1.v, part "cms"), run by Prelude/PyAstMut.v in the world
    Flow/World_cms.v, computes the model functions the theorems above are about (Proofs/Flow_cms_unpack.v, Flow_cms_pack.v).
    `value_of` = the returned value; `packed self t ws n` = returns None and leaves the writer with node n appended. *)
